@@ -14,7 +14,8 @@ PROPERTY = 'C04'
 LEVEL = 'exploration'
 RULE = ('seeded bodies of 1..18 packets over all ten type digits (0..9) x '
         'payload kinds (text/JSON/binary, unique ids) x position of CLOSE / '
-        'invalid type / undecodable piece, delivered by POST, by WebSocket '
+        'invalid type / undecodable piece, delivered by POST (plain or in the '
+        'percent-encoded d= form), by WebSocket '
         'frames, and by POST during an upgrade handshake, to one of two '
         'sessions, plus bodies for unknown / closed / rejected sessions; both '
         'servers x {synchronous, background} handlers x {well-behaved, failing '
@@ -28,7 +29,7 @@ ASSUMPTIONS = ['a poll is kept pending on polling sessions (as real clients '
                'liveness only (the hang itself is C15\'s subject)',
                'after an undecodable WebSocket frame the fate of the '
                'connection is not judged here']
-REQUIRED = ['bodies', 'failing_handlers', 'message_exactly_once', 'invalid_type', 'close_packet',
+REQUIRED = ['bodies', 'failing_handlers', 'form_encoded_bodies', 'message_exactly_once', 'invalid_type', 'close_packet',
             'whole_body_rejected', 'dead_session_body', 'upgrade_noop']
 SHARD_TIMEOUT = {'quick': 400, 'thorough': 3000}
 
@@ -73,7 +74,9 @@ def run_case(rec, case):
     if rng.random() < 0.3:
         hcfg = {'boom': {'message:%d' % rng.randint(0, 6): True
                          for _ in range(rng.randint(1, 3))},
-                'boom_base': rng.random() < 0.5}
+                'boom_base': rng.random() < 0.4}
+        if not hcfg['boom_base'] and rng.random() < 0.4:
+            hcfg['boom_type'] = 'typeerror'
         if rng.random() < 0.2:
             hcfg['boom']['message:*'] = True
         rec.count('failing_handlers')
@@ -201,7 +204,15 @@ def _run(rec, rng, sim, R, srv, asyncm, path, V, case):
                 sim.quiesce()
         sim.quiesce()
     else:
-        tk = R.post_raw(s, gen.SEP.join(pieces))
+        body = gen.SEP.join(pieces)
+        if rng.random() < 0.25:
+            # the form-encoded variant of the same body (what a JSONP client
+            # posts): separators and everything else percent-encoded
+            import urllib.parse
+            body = 'd=' + urllib.parse.quote(body, safe='')
+            rec.count('form_encoded_bodies')
+            case['_body'] = ['d= form of'] + case['_body']
+        tk = R.post_raw(s, body)
         sim.quiesce()
     got = [e for e in sim.events[n0:] if e['sid'] == s.sid]
     gm = [('message', e['data']) for e in got if e['ev'] == 'message']
